@@ -11,9 +11,20 @@ RULE = ("plane-A monitor around every propagation pass (root, after each branch/
         "schedule); non-trivial = some pass executed >= 3 constraints")
 
 
+def probe_jobs(tier, seed):
+    q = tier == "quick"
+    w = {"doms": [[3, 4], [3, 4], [2, 4]], "idx": [0, 1, 2], "off": [0, 0, 0],
+         "props": [[[0, 1, 2], "affine_eq", [-3, 1, 2, -3]]]}
+    return [Job("framework.props.proberun", "run_probe",
+                {"seed": seed * 463 + k, "count": 150 if q else 3000, "deadline_s": 60 if q else 600,
+                 "gen": {"types": None} if False else {}, "fixed_models": [w] if k == 0 else []},
+                mode="jit", timeout=300 if q else 1500, tag="probe:%d" % k, stall_s=120)
+            for k in range(3 if q else 6)]
+
+
 def trigger_jobs(tier, seed):
     q = tier == "quick"
-    return [Job("framework.props.triggers", "run_triggers",
+    return probe_jobs(tier, seed) + [Job("framework.props.triggers", "run_triggers",
                 {"seed": seed * 389 + k, "count": 8000 if q else 60000, "deadline_s": 80 if q else 600},
                 mode="interp" if k % 2 else "jit", timeout=300 if q else 1500, tag="triggers:%d" % k)
             for k in range(2 if q else 6)]
@@ -21,9 +32,10 @@ def trigger_jobs(tier, seed):
 
 def main(tier, seed):
     def post(rep, extra):
-        from framework.props import triggers
+        from framework.props import proberun, triggers
 
-        triggers.aggregate(rep, extra)
+        triggers.aggregate(rep, [j for j in extra if j.func == "run_triggers"])
+        proberun.aggregate(rep, [j for j in extra if j.func == "run_probe"])
 
     rep = _modelprop.run(
         "C08", tier, seed, RULE, do=["enum"], monitors=["budget", "fixpoint"], jit_share=0.0,
@@ -31,7 +43,9 @@ def main(tier, seed):
         needs=[("fixpoint.passes_checked", 10000, "pass monitor"), ("fixpoint.reexecutions", 20000, "re-execution"),
                ("fixpoint.ofix_compared", 2000, "O-fix comparison"), ("schedule.pops_with_a_choice", 2000,
                                                                      "schedule injection"),
-               ("triggers.unwatched_moves_checked", 2000, "trigger sufficiency")],
+               ("triggers.unwatched_moves_checked", 2000, "trigger sufficiency"),
+               ("probe.bc_passes_monitored", 3000, "compiled in-engine probe (plane B)"),
+               ("probe.reexecutions", 5000, "compiled in-engine probe (plane B)")],
         assumptions=["O-fix: chaotic iteration of the exhaustive hull operator; equality demanded only for models whose "
                      "constraints are all BC-documented types (gcc with positive capacities, no affine_eq)",
                      "order-independence is asserted only for those models"],
